@@ -16,4 +16,4 @@ CONSTANTS
   Steps = {}
   EmitK = 3
   Exempt = FALSE
-INVARIANTS RoundTrip Lookups SortedLookups Emit
+INVARIANTS Check
